@@ -1,8 +1,8 @@
 #!/verif/.venv/bin/python
 # Replay of a solver counterexample against the unmodified code (no shims).
-# property=C17 kernel=simconfig label=k1b:conversion_completes
+# property=C17 kernel=device label=k2:device_field:dmm_objects
 import sys
 sys.path[:0] = ['/repo' + "/pulser-core", '/repo' + "/pulser-simulation", "/verif"]
 from symx.replay import replay
-sys.exit(replay(check='checks.c17', kernel='simconfig', shape={'params': ['p_false_neg']},
-                assignment={'p_false_neg': '1/1'}, label='k1b:conversion_completes'))
+sys.exit(replay(check='checks.c17', kernel='device', shape={'opt': [], 'virtual': True},
+                assignment={'clock': 1, 'mind': 64, 'maxd': 64, 'g_maxdet': '1/1', 'g_maxamp': '1/1', 'l_maxdet': '1/1', 'l_maxamp': '1/1', 'retarget': 0, 'fixedt': 0, 'bottom': '1/1', 'mindist': '0/1'}, label='k2:device_field:dmm_objects'))
